@@ -405,7 +405,10 @@ pub fn generate(p: &Profile, rng: &mut Rng, history_no: u64, item_size: usize) -
     let universe = rng.range(p.universe.0, p.universe.1);
     let ignore_internal = rng.chance(1, 2);
     let overhead = if ignore_internal { 0 } else { item_size as i64 };
-    let base_cost: Vec<i64> = (0..universe).map(|k| 1 + ((k * 7 + history_no) % 5) as i64).collect();
+    // (C04 profile, internal overhead ignored: one key in three histories costs nothing at all - a resident entry
+    // whose charge is 0 is still an entry: admitted, swept, re-admitted like any other)
+    let zero_key = if p.name == "C04" && ignore_internal && history_no % 3 == 0 { Some(history_no / 3 % universe) } else { None };
+    let base_cost: Vec<i64> = (0..universe).map(|k| if Some(k) == zero_key { 0 } else { 1 + ((k * 7 + history_no) % 5) as i64 }).collect();
     let sum: i64 = base_cost.iter().map(|c| c + overhead).sum();
     let max_cost = match p.capacity {
         "tight" => sum,
